@@ -2,6 +2,7 @@
   C18 — resolution results expose every key, service and metadata item correctly.
 -/
 import Sidetree.Transformer
+import Sidetree.Did
 
 namespace Sidetree.Props.C18
 open Sidetree Sidetree.Transformer Sidetree.Patch
@@ -334,5 +335,17 @@ theorem metadata_method_fields (o : TransformOpts) (rm : RM) (info md : Json) (p
       | str s => simp [hd, hp] at h
       | arr a => simp [hd, hp] at h
       | obj ob => simp [hd, hp] at h
+
+/-- **canonical and equivalent ids as given**: the transformation info `docutil` builds for a
+    published state names the canonical id (with the canonical reference when there is one) and,
+    after it, one equivalent id per equivalent reference of the state, in order -/
+theorem publishedInfo_ids (ns id suffix cr : String) (er : List String) :
+    let canonical := ns ++ (if cr = "" then "" else ":" ++ cr) ++ ":" ++ suffix
+    (Did.publishedInfo ns id suffix cr er).get? "id" = some (.str id) ∧
+    (Did.publishedInfo ns id suffix cr er).get? "published" = some (.bool true) ∧
+    (Did.publishedInfo ns id suffix cr er).get? "canonicalId" = some (.str canonical) ∧
+    (Did.publishedInfo ns id suffix cr er).get? "equivalentId" =
+      some (.arr (.str canonical :: er.map fun r => .str (ns ++ ":" ++ r ++ ":" ++ suffix))) := by
+  simp [Did.publishedInfo, Json.get?, Json.lookup]
 
 end Sidetree.Props.C18
